@@ -6,17 +6,17 @@ From ND.model Require Import AtomicGen.
 From ND.gen Require Import Gen_C07.
 Import ListNotations.
 
-(* every accepted method (except the recorded finding F1) has a callable getter returning `dim`
+(* every accepted method has a callable getter returning `dim`
    tensors of length `size`, each flagged requires_grad *)
-Lemma table_total_b : forallb (fun e => is_F1 e || entry_total e) table = true.
+Lemma table_total_b : forallb (fun e => entry_total e) table = true.
 Proof. vm_compute. reflexivity. Qed.
 
-Lemma table_total_partial e : In e table -> is_F1 e = false ->
+Lemma table_total e : In e table ->
   e_getter e = GetLambda /\ List.length (e_tensors e) = dim (e_cls e)
   /\ forall t, In t (e_tensors e) -> t_len_ok t = true /\ t_rg t = true.
 Proof.
-  intros Hin HF. pose proof (proj1 (forallb_forall _ _) table_total_b e Hin) as H.
-  cbv beta in H. rewrite HF in H. cbn [orb] in H. unfold entry_total in H.
+  intros Hin. pose proof (proj1 (forallb_forall _ _) table_total_b e Hin) as H.
+  cbv beta in H. unfold entry_total in H.
   apply andb_prop in H. destruct H as [H Ht]. apply andb_prop in H. destruct H as [Hg Hl].
   repeat split.
   - destruct (e_getter e); [reflexivity | discriminate | discriminate].
@@ -25,23 +25,20 @@ Proof.
   - pose proof (proj1 (forallb_forall _ _) Ht t H) as Hk. unfold tensor_ok in Hk. now apply andb_prop in Hk.
 Qed.
 
-(* the table is not empty, covers the five classes, and the F1 entry is the only exclusion *)
+(* the table is not empty and covers the five classes *)
 Example table_nonempty :
   forallb (fun c => Nat.leb 2 (List.length (filter (fun e => gclass_eqb (e_cls e) c) table))) [G1D; G2D; G3D; GND; GSph] = true
-  /\ Nat.leb (List.length (filter is_F1 table)) 1 = true.
+  /\ Nat.leb 30 (List.length table) = true.
 Proof. vm_compute. split; reflexivity. Qed.
 
 (* deterministic methods make no RNG call at all and return stored tensors; noisy methods and
    1-D uniform sampling draw inside get_examples() and the draw reaches every returned tensor;
    every method string is one the property classifies *)
-Lemma static_vs_fresh_b : forallb (fun e => is_F1 e || meets e) table = true.
+Lemma static_vs_fresh_b : forallb (fun e => meets e) table = true.
 Proof. vm_compute. reflexivity. Qed.
 
-Lemma static_vs_fresh e : In e table -> is_F1 e = false -> meets e = true.
-Proof.
-  intros Hin HF. pose proof (proj1 (forallb_forall _ _) static_vs_fresh_b e Hin) as H.
-  cbv beta in H. now rewrite HF in H.
-Qed.
+Lemma static_vs_fresh e : In e table -> meets e = true.
+Proof. intros Hin. exact (proj1 (forallb_forall _ _) static_vs_fresh_b e Hin). Qed.
 
 Lemma meets_static e : meets e = true -> requirement_of (e_cls e) (e_method e) (e_noisy e) = MustStatic ->
   e_call_rng e = [] /\ e_ctor_rng e = [] /\ forall t, In t (e_tensors e) -> t_fresh t = false /\ t_rand t = false.
@@ -70,14 +67,11 @@ Example requirement_examples :
 Proof. repeat split; reflexivity. Qed.
 
 (* grid classes: meshgrid(indexing='ij') + flatten, arguments in axis order *)
-Lemma grid_table_b : forallb (fun e => is_F1 e || grid_ok e) table = true.
+Lemma grid_table_b : forallb (fun e => grid_ok e) table = true.
 Proof. vm_compute. reflexivity. Qed.
 
-Lemma grid_table e : In e table -> is_F1 e = false -> grid_ok e = true.
-Proof.
-  intros Hin HF. pose proof (proj1 (forallb_forall _ _) grid_table_b e Hin) as H.
-  cbv beta in H. now rewrite HF in H.
-Qed.
+Lemma grid_table e : In e table -> grid_ok e = true.
+Proof. intros Hin. exact (proj1 (forallb_forall _ _) grid_table_b e Hin). Qed.
 
 (* every noise-free, unwrapped tensor formula of a non-spherical entry is listed in det_terms
    with the entry's positivity guard *)
